@@ -37,14 +37,34 @@ def run(c):
              % (mode, rdel, rres))
     kw = dict(corrupt_mode=mode, reader_deletes=rdel, allow_delete_fresh=True, reader_restores=rres)
 
-    # ---- 1. design level -------------------------------------------------------------------------------
-    design = [(["r1", "r2"], 1, "LayoutsAll"), (["r1"], 2, "LayoutsSmall")]
+    # ---- 1. design level + 2. export of the state graphs (independent TLC runs, three at a time) ------------
+    # (readers, writers, layouts, init image); init image 0 = first write into a never-written (all-zero) block
+    design = [(["r1", "r2"], 1, "LayoutsAll", 1), (["r1"], 2, "LayoutsSmall", 1), (["r1"], 1, "LayoutsInside", 0)]
     if not c.quick:
-        design += [(["r1", "r2"], 2, "LayoutsAll"), (["r1", "r2", "r3"], 1, "LayoutsSmall")]
+        design += [(["r1", "r2"], 2, "LayoutsAll", 1), (["r1", "r2", "r3"], 1, "LayoutsSmall", 1),
+                   (["r1", "r2"], 2, "LayoutsInside", 0)]
+    graphs = [(["r1"], 1, "LayoutsAll", 1, None), (["r1", "r2"], 1, "LayoutsSmall", 1, 400),
+              (["r1"], 2, "LayoutsSmall", 1, 250), (["r1"], 1, "LayoutsInside", 0, None)] if c.quick else \
+             [(["r1"], 1, "LayoutsAll", 1, None), (["r1", "r2"], 1, "LayoutsAll", 1, None),
+              (["r1"], 2, "LayoutsAll", 1, None), (["r1", "r2"], 2, "LayoutsSmall", 1, 2500),
+              (["r1", "r2"], 1, "LayoutsInside", 0, None), (["r1"], 2, "LayoutsInside", 0, None)]
+    from concurrent.futures import ThreadPoolExecutor
+
+    def design_run(a):
+        i, (readers, nw, lays, img) = a
+        return c.tlc_must_pass("BlockCow", "BlockCow_gen.cfg", workers=2, timeout=1500, coverage=True,
+                               files={"BlockCow_gen.cfg": bc.mc_cfg(readers, nw, lays, init_img=img, **kw)}, tag="design%d" % i)
+
+    def graph_run(a):
+        i, (readers, nw, lays, img, cap) = a
+        return bc.export_graph(c, bc.mc_cfg(readers, nw, lays, emit=True, init_img=img, **kw), workers=2, timeout=1500,
+                               tag="emit%d" % i)
+
+    with ThreadPoolExecutor(max_workers=3) as ex:
+        dres = list(ex.map(design_run, list(enumerate(design))))
+        gres = list(ex.map(graph_run, list(enumerate(graphs))))
     cover = {}
-    for readers, nw, lays in design:
-        r = c.tlc_must_pass("BlockCow", "BlockCow_gen.cfg", workers=4, timeout=1500, coverage=True,
-                            files={"BlockCow_gen.cfg": bc.mc_cfg(readers, nw, lays, **kw)}, tag="design")
+    for r in dres:
         for k, v in r.coverage.items():
             cover[k] = cover.get(k, 0) + v[0]
     dead = [a for a in ACTIONS if cover.get(a, 0) == 0]
@@ -52,20 +72,15 @@ def run(c):
         raise vlib.InfraError("vacuous model: actions never taken: %s (coverage %s)" % (dead, cover))
 
     # ---- 2. spec -> code ---------------------------------------------------------------------------------
-    graphs = [(["r1"], 1, "LayoutsAll", None), (["r1", "r2"], 1, "LayoutsSmall", 400),
-              (["r1"], 2, "LayoutsSmall", 250)] if c.quick else \
-             [(["r1"], 1, "LayoutsAll", None), (["r1", "r2"], 1, "LayoutsAll", None), (["r1"], 2, "LayoutsAll", None),
-              (["r1", "r2"], 2, "LayoutsSmall", 2500)]
     plans, gstats = [], []
-    for gi, (readers, nw, lays, cap) in enumerate(graphs):
-        states, edges, inits, r = bc.export_graph(c, bc.mc_cfg(readers, nw, lays, emit=True, **kw), workers=4, timeout=1500)
+    for gi, ((readers, nw, lays, img, cap), (states, edges, inits, r)) in enumerate(zip(graphs, gres)):
         macro, unreal = bc.fuse(states, edges, inits)
         paths, total, covered = bc.cover_paths(macro, inits, rng, max_paths=cap)
         for pi, p in enumerate(paths):
             plans.append(bc.plan_for(states, macro, p, "g%d-p%d" % (gi, pi)))
-        gstats.append(dict(readers=len(readers), writers=nw, layouts=lays, states=len(states), fine_edges=len(edges),
-                           gate_level_edges=total, gate_level_edges_replayed=covered, paths=len(paths),
-                           fine_edges_not_realisable=unreal))
+        gstats.append(dict(readers=len(readers), writers=nw, layouts=lays, init_img=img, states=len(states),
+                           fine_edges=len(edges), gate_level_edges=total, gate_level_edges_replayed=covered,
+                           paths=len(paths), fine_edges_not_realisable=unreal))
         if not cap and covered != total:
             raise vlib.InfraError("path cover incomplete: %d of %d" % (covered, total))
     planf = os.path.join(c.scratch, "plan.json")
@@ -95,6 +110,8 @@ def run(c):
     rej, notes = bc.validate_with_notes(c, traces, cfg, chunk=c.pick(250, 500), parallel=4)
     seen = set()
     for x in rej:
+        if x["index"] < 0:      # beyond the first few rejected traces: counted, not diagnosed
+            continue
         ev = x["event"] or {}
         sig = "trace-rejected:%s:%s:%s" % (ev.get("ev"), (ev.get("actor") or "?")[:1], ev.get("to") or ev.get("kind"))
         if sig in seen:
@@ -128,7 +145,7 @@ def run(c):
     c.sample(dict(replayed_behaviour=plans[len(plans) // 2]))
     c.cov.update(dict(
         exhaustive=True, tree_variant=dict(corrupt_mode=mode, reader_deletes=rdel, reader_restores=rres),
-        graphs=gstats, behaviours_replayed=len(plans), replay_diverged=diverged, random_schedules=len(rnd),
+        graphs=gstats, traces_rejected=len(rej), behaviours_replayed=len(plans), replay_diverged=diverged, random_schedules=len(rnd),
         evaluations=len(traces), events_validated=sum(len(e) for _, e in traces),
         distinct_nontrivial=sum(g["gate_level_edges_replayed"] for g in gstats),
         rule="one case = one edge of the gate-level state graph of BlockCow (state x actor step or crash variant) executed on the real code inside a replayed path and accepted by the trace spec; edges are distinct by construction",
